@@ -3,11 +3,15 @@
  * coap_socket_read(); what the protocol layer receives is logged.
  *
  * usage: drv_stream <cases.txt> <out.ndjson>
- *   X id=<n> max=<csm max message size, 0 = default> edge=<0|1> ws=<0|1> http=<length of the HTTP upgrade request at the start of the stream>
+ *   X id=<n> max=<csm max message size, 0 = default> edge=<0|1> ws=<0|1> http=<length of the HTTP upgrade request at the start of the stream> role=<0|1>
+ *        role=1: the session under test is a libcoap CLIENT session connected (really) to a listener the driver owns; the
+ *        stream is what the server sends (for ws=1: the HTTP 101 response - whose Sec-WebSocket-Accept value the driver
+ *        patches in where the stream has 28 '#' characters - followed by UNMASKED frames)
  *        ws=1: a WebSocket endpoint (RFC 8323 section 8): the stream is the upgrade request followed by masked frames
  *        edge=1: readiness is signalled once per arriving chunk (until the first read after its arrival), the way a
  *        TLS layer underneath behaves: the record is decrypted by the first read and the rest sits in the TLS
  *        library's buffer, the socket does not become readable again for it
+ *        hostile=1: the stream is not a valid one; only robustness is judged (C02)
  *   K <bid> <len>        declare a pattern blob (abbreviated as a run in the trace)
  *   S <hex>              append bytes to the stream
  *   P <bid> <len>        append the pattern blob bytes to the stream
@@ -20,6 +24,9 @@
 #include <unistd.h>
 #include <string.h>
 #include <stdlib.h>
+#include <errno.h>
+#include <gnutls/gnutls.h>
+#include <gnutls/crypto.h>
 
 extern int (*sim_extra_events)(int epfd, struct epoll_event *events, int max);
 
@@ -32,7 +39,7 @@ static size_t chunks[4096];
 static int nchunks, curchunk;
 static size_t chunk_left;
 static int chunk_open, accepted, closed, cfd = -1;
-static int edge, signalled_read, ws, httplen;     /* edge mode: a read has been made since the last arrival */
+static int edge, signalled_read, ws, httplen, role, hostile, lfd = -1;     /* edge mode: a read has been made since the last arrival */
 static struct { int bid; size_t len; } blobs[32];
 static int nblobs;
 
@@ -70,6 +77,12 @@ ssize_t __wrap_coap_socket_read(coap_socket_t *sock, uint8_t *data, size_t data_
     return 0;
   }
   signalled_read = 1;
+  if (data_len == 0) {
+    /* recv() with a zero length returns 0, which coap_socket_read() takes for the peer's shutdown */
+    sock->flags &= ~COAP_SOCKET_CAN_READ;
+    errno = ECONNRESET;
+    return -1;
+  }
   n = chunk_left < data_len ? chunk_left : data_len;
   memcpy(data, stream + spos, n);
   spos += n;
@@ -81,9 +94,41 @@ ssize_t __wrap_coap_socket_read(coap_socket_t *sock, uint8_t *data, size_t data_
   return (ssize_t)n;
 }
 
+static void b64(const uint8_t *in, size_t n, char *out) {
+  static const char T[] = "ABCDEFGHIJKLMNOPQRSTUVWXYZabcdefghijklmnopqrstuvwxyz0123456789+/";
+  size_t i, o = 0;
+  for (i = 0; i < n; i += 3) {
+    uint32_t v = (uint32_t)in[i] << 16 | (i + 1 < n ? (uint32_t)in[i + 1] << 8 : 0) | (i + 2 < n ? in[i + 2] : 0);
+    out[o++] = T[v >> 18 & 63];
+    out[o++] = T[v >> 12 & 63];
+    out[o++] = i + 1 < n ? T[v >> 6 & 63] : '=';
+    out[o++] = i + 2 < n ? T[v & 63] : '=';
+  }
+  out[o] = 0;
+}
+
+/* client role, WebSocket: the upgrade request names the key; RFC 6455 section 4.2.2 says what the server answers */
+static void patch_accept(const uint8_t *req, size_t n) {
+  static const char K[] = "Sec-WebSocket-Key: ", G[] = "258EAFA5-E914-47DA-95CA-C5AB0DC85B11";
+  char cat[128], acc[32];
+  uint8_t dig[20];
+  size_t i, kl = sizeof(K) - 1, j;
+  for (i = 0; i + kl < n; i++)
+    if (!memcmp(req + i, K, kl)) break;
+  if (i + kl >= n) return;
+  for (j = 0; i + kl + j < n && req[i + kl + j] != '\r' && j < 60; j++) cat[j] = (char)req[i + kl + j];
+  memcpy(cat + j, G, sizeof(G));
+  gnutls_hash_fast(GNUTLS_DIG_SHA1, cat, strlen(cat), dig);
+  b64(dig, 20, acc);
+  for (i = 0; i + 28 <= slen && i + 28 <= (size_t)httplen; i++) {
+    for (j = 0; j < 28 && stream[i + j] == '#'; j++);
+    if (j == 28) { memcpy(stream + i, acc, 28); return; }
+  }
+}
+
 ssize_t __wrap_coap_socket_write(coap_socket_t *sock, const uint8_t *data, size_t data_len) {
   sock->flags &= ~(COAP_SOCKET_WANT_WRITE | COAP_SOCKET_CAN_WRITE);
-  (void)data;
+  if (role && ws && data_len > 20 && !memcmp(data, "GET ", 4)) patch_accept(data, data_len);
   return (ssize_t)data_len;
 }
 
@@ -95,6 +140,12 @@ static int extra_events(int epfd, struct epoll_event *events, int max) {
     /* level triggered: offered until the library has accepted the connection (a build with real locking polls twice) */
     events[n].events = EPOLLIN;
     events[n].data.ptr = &ep->sock;
+    n++;
+    return n;
+  }
+  if (role && sess && !closed && (sess->sock.flags & COAP_SOCKET_WANT_CONNECT)) {
+    events[n].events = EPOLLOUT;          /* the (real, loopback) connection is up */
+    events[n].data.ptr = &sess->sock;
     n++;
     return n;
   }
@@ -130,7 +181,7 @@ static void h_ping(coap_session_t *s, const coap_pdu_t *rcv, const coap_mid_t mi
 }
 
 static int h_event(coap_session_t *s, const coap_event_t ev) {
-  if (ev == COAP_EVENT_SERVER_SESSION_NEW) {
+  if (ev == COAP_EVENT_SERVER_SESSION_NEW && !role) {
     accepted = 1;
     sess = s;
     coap_session_reference(s);
@@ -158,29 +209,50 @@ static void run_case(int id, int max) {
   for (i = 1; i <= 7; i++) coap_register_request_handler(r, (coap_request_t)i, h_req);
   coap_add_resource(ctx, r);
   sim_addr(&a, "127.0.0.1", 0);
-  {
-    int tries;
-    for (tries = 0; !(ep = coap_new_endpoint(ctx, &a, proto)) && tries < 60; tries++) sleep(1);     /* many cases per process: wait out port exhaustion */
-    if (!ep) { fputs("{\"e\":\"Crash\"}\n", sim_trace); fflush(sim_trace); _exit(3); }
-  }
-  sim_add_node(ctx);
   accepted = closed = 0;
   sess = NULL;
   curchunk = 0; spos = 0; arrived = 0; chunk_open = 0; chunk_left = 0; signalled_read = 0;
-  /* a real connection so that the library's accept() succeeds */
-  cfd = socket(AF_INET, SOCK_STREAM, 0);
-  memset(&sa, 0, sizeof(sa));
-  sa.sin_family = AF_INET;
-  sa.sin_port = ep->bind_addr.addr.sin.sin_port;
-  sa.sin_addr.s_addr = htonl(INADDR_LOOPBACK);
-  if (connect(cfd, (struct sockaddr *)&sa, sizeof(sa)) < 0) { fputs("{\"e\":\"Crash\"}\n", sim_trace); return; }
-  fprintf(sim_trace, "{\"e\":\"Reset\",\"id\":%d,\"max\":%lu,\"proto\":\"%s\",\"http\":%d}\n", id,
-          (unsigned long)(max ? max : 8388864), ws ? "ws" : "tcp", httplen);
+  if (!role) {
+    int tries;
+    for (tries = 0; !(ep = coap_new_endpoint(ctx, &a, proto)) && tries < 60; tries++) sleep(1);     /* many cases per process: wait out port exhaustion */
+    if (!ep) { fputs("{\"e\":\"Crash\"}\n", sim_trace); fflush(sim_trace); _exit(3); }
+    sim_add_node(ctx);
+    /* a real connection so that the library's accept() succeeds */
+    cfd = socket(AF_INET, SOCK_STREAM, 0);
+    memset(&sa, 0, sizeof(sa));
+    sa.sin_family = AF_INET;
+    sa.sin_port = ep->bind_addr.addr.sin.sin_port;
+    sa.sin_addr.s_addr = htonl(INADDR_LOOPBACK);
+    if (connect(cfd, (struct sockaddr *)&sa, sizeof(sa)) < 0) { fputs("{\"e\":\"Crash\"}\n", sim_trace); return; }
+  } else {
+    /* the driver is the server: a real listener, a real connect() by the library's client session */
+    socklen_t sl = sizeof(sa);
+    int one = 1, tries;
+    ep = NULL;
+    lfd = socket(AF_INET, SOCK_STREAM, 0);
+    setsockopt(lfd, SOL_SOCKET, SO_REUSEADDR, &one, sizeof(one));
+    memset(&sa, 0, sizeof(sa));
+    sa.sin_family = AF_INET;
+    sa.sin_addr.s_addr = htonl(INADDR_LOOPBACK);
+    for (tries = 0; bind(lfd, (struct sockaddr *)&sa, sizeof(sa)) < 0 && tries < 60; tries++) sleep(1);
+    if (listen(lfd, 4) < 0 || getsockname(lfd, (struct sockaddr *)&sa, &sl) < 0) { fputs("{\"e\":\"Crash\"}\n", sim_trace); fflush(sim_trace); _exit(3); }
+    sim_add_node(ctx);
+    sim_addr(&a, "127.0.0.1", ntohs(sa.sin_port));
+    for (tries = 0; !(sess = coap_new_client_session(ctx, NULL, &a, proto)) && tries < 60; tries++) sleep(1);
+    if (!sess) { fputs("{\"e\":\"Crash\"}\n", sim_trace); fflush(sim_trace); _exit(3); }
+    if (ws) coap_ws_set_host_request(sess, coap_make_str_const("localhost"));
+    accepted = 1;
+    cfd = accept(lfd, NULL, NULL);
+    if (cfd < 0) { fputs("{\"e\":\"Crash\"}\n", sim_trace); return; }
+  }
+  fprintf(sim_trace, "{\"e\":\"Reset\",\"id\":%d,\"max\":%lu,\"proto\":\"%s\",\"http\":%d,\"role\":\"%s\",\"hostile\":%d}\n", id,
+          (unsigned long)(max ? max : 8388864), ws ? "ws" : "tcp", httplen, role ? "c" : "s", hostile);
   fputs("{\"e\":\"Stream\",\"w\":", sim_trace);
   atoms(stream, slen);
   fputs("}\n", sim_trace);
   fflush(sim_trace);
-  sim_round();                       /* accept */
+  sim_round();                       /* accept / connect, the library's opening message (CSM or upgrade request) */
+  if (role) { int g; for (g = 0; g < 8 && sess && !closed && (sess->sock.flags & COAP_SOCKET_WANT_CONNECT); g++) sim_round(); }
   /* offer the chunks one per scheduler round */
   for (;;) {
     size_t rest = slen - arrived, c;
@@ -219,6 +291,7 @@ static void run_case(int id, int max) {
     setsockopt(cfd, SOL_SOCKET, SO_LINGER, &lg, sizeof(lg));
   }
   close(cfd);
+  if (lfd >= 0) { close(lfd); lfd = -1; }
 }
 
 int main(int argc, char **argv) {
@@ -231,7 +304,7 @@ int main(int argc, char **argv) {
   if (!in || !sim_trace) return 2;
   setvbuf(sim_trace, NULL, _IOFBF, 1 << 20);
   coap_startup();
-  coap_set_log_level(COAP_LOG_EMERG);
+  coap_set_log_level(getenv("DRV_DEBUG") ? COAP_LOG_DEBUG : COAP_LOG_EMERG);
   sim_trace_io = 0;
   sim_extra_events = extra_events;
   scap = 1 << 20;
@@ -248,6 +321,10 @@ int main(int argc, char **argv) {
       ws = p ? atoi(p + 3) : 0;
       p = strstr(line, "http=");
       httplen = p ? atoi(p + 5) : 0;
+      p = strstr(line, "role=");
+      role = p ? atoi(p + 5) : 0;
+      p = strstr(line, "hostile=");
+      hostile = p ? atoi(p + 8) : 0;
       slen = 0; nchunks = 0; nblobs = 0;
       sim_reset(1000);
     } else if (line[0] == 'K') {
